@@ -80,6 +80,7 @@ C06_OnlyKnownVoters == \A id \in Ids : props[id].nvotes = Cardinality({a \in Add
 
 T_C03_ExecuteAdmitted == [][C03_ExecuteAdmitted]_tv
 T_C03_CloseAdmitted == [][C03_CloseAdmitted]_tv
+T_C03_ExecuteMustBeAdmitted == [][C03_ExecuteMustBeAdmitted]_tv
 T_C05_DispatchExact == [][C05_DispatchExact]_tv
 T_C05_ExecutorRule == [][C05_ExecutorRule]_tv
 T_C05_FailedKeeps == [][C05_FailedKeeps]_tv
